@@ -33,7 +33,7 @@ def run(ctx, drv):
     ctx.nontrivial_rule = ("exhaustive: every width w in the tier's range x offsets {-5,0,3}: all values 0..w (encode) and all bit "
                            "strings of length nbits(w) (decode); raw conversions on all bit strings of length <= L and random "
                            "longer ones; nbits at all w in {2^k-1,2^k,2^k+1 | k<=32} + random w < 2^32. non-trivial = every "
-                           "case with w >= 1 or non-empty bit string (distinct by request line)")
+                           "case with w >= 1 or non-empty bit string (distinct by request line) + ranges with bounds beyond 2^52 and small widths")
     widths = list(range(1, 71)) if ctx.quick() else list(range(1, 600)) + [1023, 1024, 1025, 4095, 4096, 4097]
     offsets = [-5, 0, 3]
     reqs, exp = [], []
@@ -101,6 +101,17 @@ def run(ctx, drv):
     ctx.exhaustive = True
     ctx.notes.append(f"exhaustive over widths 1..{widths[-1] if ctx.quick() else 599} (all values, all bit strings of the variable's length)")
 
+    # huge bounds, small widths: the offset must not pass through a double on the way
+    for off in [2 ** 52, 2 ** 53, 2 ** 53 + 1, -(2 ** 53) - 13, 10 ** 18, 2 ** 60 + 7, -(2 ** 63), 2 ** 64 - 5, 2 ** 100]:
+        for w in (1, 5, 10, 21, 37):
+            t = impl(T.Integer, off, off + w)
+            if isinstance(t, str):
+                ctx.fail("constructor-error", {"min": off, "max": off + w}, t, "Integer type", "types.Integer.__init__")
+                continue
+            for v in range(0, w + 1):
+                add(f"encode {w} {v}", impl(t.encode, off + v))
+            oracle_width(ctx, t, off, w)
+    ctx.count("huge_offset_ranges", 45)
     # large widths: sampled
     for _ in range(200 if ctx.quick() else 3000):
         w = rng.randrange(71, 2 ** 31)
